@@ -1179,11 +1179,10 @@ def build_model(
             except SyntaxError:
                 failed_execs.append(str(s))
 
-        if failed_execs:
-            raise BuildError(
-                'Failed to `exec`ute the following `Symbol` object(s):\n'
-                + '\n'.join('    {x}' for x in failed_execs)
-            ) from e
+        raise BuildError(
+            'Failed to `exec`ute the following `Symbol` object(s):\n'
+            + '\n'.join('    {x}' for x in failed_execs)
+        ) from e
 
     # Otherwise, if here, assign the original code to an attribute and return
     # the class
